@@ -123,6 +123,18 @@ type SCTPChunk struct {
 	ActualLength int
 }
 
+// prependPadded returns length bytes rounded up to a multiple of 4 with the padding zeroed.
+func prependPadded(b gopacket.SerializeBuffer, length int) ([]byte, error) {
+	bytes, err := b.PrependBytes(roundUpToNearest4(length))
+	if err != nil {
+		return nil, err
+	}
+	for i := length; i < len(bytes); i++ {
+		bytes[i] = 0
+	}
+	return bytes, nil
+}
+
 func roundUpToNearest4(i int) int {
 	if i%4 == 0 {
 		return i
@@ -240,7 +252,9 @@ func (s SCTPUnknownChunkType) SerializeTo(b gopacket.SerializeBuffer, opts gopac
 	if err != nil {
 		return err
 	}
-	copy(bytes, s.bytes)
+	for i := copy(bytes, s.bytes); i < len(bytes); i++ {
+		bytes[i] = 0
+	}
 	return nil
 }
 
@@ -373,10 +387,7 @@ func (sc SCTPData) SerializeTo(b gopacket.SerializeBuffer, opts gopacket.Seriali
 	payload := sc.Payload
 	length := len(payload) + 16
 
-	if rem := length % 4; rem != 0 {
-		length += 4 - rem
-	}
-	bytes, err := b.PrependBytes(length)
+	bytes, err := prependPadded(b, length)
 	if err != nil {
 		return err
 	}
@@ -454,7 +465,7 @@ func (sc SCTPInit) SerializeTo(b gopacket.SerializeBuffer, opts gopacket.Seriali
 		payload = append(payload, SCTPParameter(param).Bytes()...)
 	}
 	length := 20 + len(payload)
-	bytes, err := b.PrependBytes(roundUpToNearest4(length))
+	bytes, err := prependPadded(b, length)
 	if err != nil {
 		return err
 	}
@@ -529,7 +540,7 @@ func decodeSCTPSack(data []byte, p gopacket.PacketBuilder) error {
 // SerializeTo is for gopacket.SerializableLayer.
 func (sc SCTPSack) SerializeTo(b gopacket.SerializeBuffer, opts gopacket.SerializeOptions) error {
 	length := 16 + 2*len(sc.GapACKs) + 4*len(sc.DuplicateTSNs)
-	bytes, err := b.PrependBytes(roundUpToNearest4(length))
+	bytes, err := prependPadded(b, length)
 	if err != nil {
 		return err
 	}
@@ -595,7 +606,7 @@ func (sc SCTPHeartbeat) SerializeTo(b gopacket.SerializeBuffer, opts gopacket.Se
 	}
 	length := 4 + len(payload)
 
-	bytes, err := b.PrependBytes(roundUpToNearest4(length))
+	bytes, err := prependPadded(b, length)
 	if err != nil {
 		return err
 	}
@@ -651,7 +662,7 @@ func (sc SCTPError) SerializeTo(b gopacket.SerializeBuffer, opts gopacket.Serial
 	}
 	length := 4 + len(payload)
 
-	bytes, err := b.PrependBytes(roundUpToNearest4(length))
+	bytes, err := prependPadded(b, length)
 	if err != nil {
 		return err
 	}
@@ -754,7 +765,7 @@ func decodeSCTPCookieEcho(data []byte, p gopacket.PacketBuilder) error {
 // SerializeTo is for gopacket.SerializableLayer.
 func (sc SCTPCookieEcho) SerializeTo(b gopacket.SerializeBuffer, opts gopacket.SerializeOptions) error {
 	length := 4 + len(sc.Cookie)
-	bytes, err := b.PrependBytes(roundUpToNearest4(length))
+	bytes, err := prependPadded(b, length)
 	if err != nil {
 		return err
 	}
